@@ -2,10 +2,12 @@
 # runs every registered check of a tier in sequence; prints one line per property
 TIER="${1:-quick}"
 cd "$(dirname "$0")/.." && ./bootstrap.sh >/dev/null
+FAIL=0
 for P in C01 C02 C03 C04 C05 C06 C07 C08 C09 C10 C11 C12 C13 C14 C15 C16 C17 C18 C19 C20; do
   START=$(date +%s)
   .venv/bin/python -m vf.check $P --tier $TIER > /tmp/run_all_$P.log 2>&1; RC=$?
   END=$(date +%s)
   echo "$P exit=$RC $((END-START))s $(grep "tier=$TIER" /tmp/run_all_$P.log | sed 's/.*harnesses=/harnesses=/' | cut -c1-170)"
-  [ $RC -ne 0 ] && grep -E "VIOLATION|INCONCLUSIVE|MODEL-ERROR" /tmp/run_all_$P.log | head -3 | cut -c1-200
+  if [ $RC -ne 0 ]; then FAIL=1; grep -E "VIOLATION|INCONCLUSIVE|MODEL-ERROR" /tmp/run_all_$P.log | head -3 | cut -c1-200; fi
 done
+exit $FAIL
